@@ -23,7 +23,7 @@ VERUS = [dict(
     uses="use vstd::prelude::*;\nuse vstd::arithmetic::div_mod::*;\nuse vstd::arithmetic::mul::*;\n",
     prelude="prelude.rs", proofs="proofs.rs", witness="witness.rs",
     rlimit=60, min_verified=9,
-    twins=["c11_remainder_pow2_full", "c11_partition_indices_bounded"],
+    twins=["c11_partition_indices_bounded"], twin_timeout=900,
     items=[
         dict(file=F, path=["enum StrengthReducedU64"]),
         dict(file=F, path=[IMPL, "fn new"], wrap=IMPL, ret="r",
@@ -168,7 +168,10 @@ VERUS = [dict(
     ],
 )]
 
-KANI = []
+KANI = [dict(package="datafusion-physical-plan", module="physical_plan/repartition.rs", timeout=2400, harnesses=[
+    dict(name="c11_partition_indices_bounded", complete=False, bound="divisors 1..=6, two hashes < 2^12",
+         what="Kani twin of the Verus unit on the unextracted new + partition_indices: each row exactly once, in bucket hash mod n (cross-check of rewrites R1/R2)"),
+])]
 TRUSTED = ["Verus 0.2026.09.13 + Z3 4.12.5 (bundled)", "assume_specification u64::is_power_of_two <=> d>0 && d&(d-1)==0",
            "Verus encoding of u128 arithmetic and of #[verifier::truncate] casts", "extraction scanner + rewrites R1,R2,R5 (logged, diffed)"]
 ASSUMPTIONS = ["precondition hash_buffer.len() <= u32::MAX (Arrow batches have < 2^32 rows; the `index as u32` cast relies on it)",
